@@ -3,27 +3,26 @@ package scratch
 import (
 	"context"
 	"fmt"
-	"io"
-	"strings"
 	"testing"
-	"time"
 
-	"github.com/bufbuild/protocompile"
+	"github.com/bufbuild/protocompile/experimental/incremental"
 )
 
-type panicCloser struct{ io.Reader }
+type q struct{ id int }
 
-func (panicCloser) Close() error { panic("close panics") }
+func (x q) Key() any { return x }
+func (x q) Execute(t *incremental.Task) (int, error) {
+	panic(fmt.Sprintf("p%d", x.id))
+}
 
 func TestS(t *testing.T) {
-	res := protocompile.ResolverFunc(func(path string) (protocompile.SearchResult, error) {
-		if path == "a.proto" {
-			return protocompile.SearchResult{Source: panicCloser{strings.NewReader("syntax = \"proto3\"; message M {}")}}, nil
+	for i := 0; i < 2000; i++ {
+		exec := incremental.New(incremental.WithParallelism(2))
+		_, _, err := incremental.Run(context.Background(), exec, q{0}, q{1}, q{2})
+		if k := exec.Keys(); len(k) > 0 {
+			fmt.Println("iteration", i, "keys", k, "err", err != nil)
+			return
 		}
-		return protocompile.SearchResult{}, fmt.Errorf("not found")
-	})
-	c := protocompile.Compiler{Resolver: res}
-	_, err := c.Compile(context.Background(), "a.proto")
-	fmt.Println("err:", err)
-	time.Sleep(200 * time.Millisecond)
+	}
+	fmt.Println("never memoized")
 }
